@@ -322,6 +322,9 @@ func execMvcc(intents []string, st *Stats) (final, outs, oracle []string) {
 			continue
 		}
 		progress(line)
+		if kvInt(kvWords(w[1:]), "ev", 0) == 1 {
+			continue // derived from the preceding intent; regenerated when that intent is re-executed
+		}
 		if w[0] != "reset" && s.db == nil {
 			emit(line, "bad-op")
 			continue
@@ -514,7 +517,13 @@ func execMvcc(intents []string, st *Stats) (final, outs, oracle []string) {
 				emit(line, errKind(err))
 				continue
 			}
-			s.emitEvents(emit, fail)
+			if len(final) > 0 {
+				nb := len(final)
+				s.emitEvents(emit, fail)
+				if len(final) == nb {
+					emit("flush id=0", "ok") // empty memtable: nothing was written
+				}
+			}
 			s.judgeStable("flush", pre, fail)
 			emit("dump", s.dump())
 			s.judgeStructure(fail)
@@ -673,11 +682,26 @@ func joinU64(xs []uint64) string {
 // lines (tables named by file id) for the model, each with the implementation's own
 // (discardTs, hasOverlap) as output. Returns the number of compaction events.
 func (s *mvSess) emitEvents(emit func(string, string), fail func(string, string)) int {
+	return s.emitEventsX(emit, fail, "", false)
+}
+
+// intent: fields of the generated op (`id=… adj=…`) appended to the first event line so that a
+// replay re-issues the same call; allDerived: every line is a consequence of a preceding intent
+// line (DropPrefix) and carries `ev=1`, which makes the executor skip it on replay.
+func (s *mvSess) emitEventsX(emit func(string, string), fail func(string, string), intent string, allDerived bool) int {
 	n := 0
+	first := true
 	for _, ev := range badger.VerifTakeEvents() {
+		suffix := ""
+		if allDerived || !first {
+			suffix = " ev=1"
+		} else if intent != "" {
+			suffix = " " + intent
+		}
+		first = false
 		switch ev.Kind {
 		case "flush":
-			emit(fmt.Sprintf("flush id=%d", ev.NewIDs[0]), "ok")
+			emit(fmt.Sprintf("flush id=%d", ev.NewIDs[0])+suffix, "ok")
 		case "compact":
 			n++
 			var news []string
@@ -693,6 +717,7 @@ func (s *mvSess) emitEvents(emit func(string, string), fail func(string, string)
 			if len(drops) > 0 {
 				op += " drop=" + strings.Join(drops, ",")
 			}
+			op += suffix
 			emit(op, fmt.Sprintf("ok discard=%d overlap=%d", ev.DiscardTs, b2i(ev.HasOverlap)))
 			s.st.Inc(fmt.Sprintf("compact:L%d->L%d", ev.ThisLevel, ev.NextLevel))
 			if len(ev.BotIDs) > 0 {
@@ -745,7 +770,7 @@ func (s *mvSess) compact(kv map[string]string, emit func(string, string), fail f
 		s.st.Inc("compact:none")
 		return
 	}
-	s.emitEvents(emit, fail)
+	s.emitEventsX(emit, fail, fmt.Sprintf("id=%d adj=%s", id, adjS), false)
 	s.judgeStable(fmt.Sprintf("compaction of level %d", this), pre, fail)
 	emit("dump", s.dump())
 	s.judgeStructure(fail)
@@ -775,7 +800,7 @@ func (s *mvSess) dropPrefix(ws []string, emit func(string, string), fail func(st
 		return
 	}
 	emit(op, "ok")
-	s.emitEvents(emit, fail)
+	s.emitEventsX(emit, fail, "", true)
 	emit("dump", s.dump())
 	s.judgeStructure(fail)
 	// oracle
